@@ -118,8 +118,10 @@ def run(ctx):
     # ---- history independence, decided positively: the same data word formatted as type A and then as type B in ONE interpreter
     # (module-level state written by the first call is visible to the second) must give exactly what B gives in a fresh interpreter
     names = [n for n, _ in sorted(T.items(), key=lambda kv: kv[1]) if n not in ("NULL", "STRING")]
-    pairs = [(a_, b_) for a_, b_ in (("DIMENSION", "FRACTION"), ("FRACTION", "DIMENSION"), ("INT_DEC", "INT_HEX"), ("INT_HEX", "INT_DEC"),
-                                     ("REFERENCE", "ATTRIBUTE"), ("FLOAT", "INT_DEC")) if a_ in T and b_ in T]
+    pairs = [(a_, b_) for a_, b_ in (("DIMENSION", "FRACTION"), ("FRACTION", "DIMENSION"), ("INT_DEC", "INT_HEX"),
+                                     ("REFERENCE", "ATTRIBUTE")) if a_ in T and b_ in T]
+    if ctx.tier == "thorough":
+        pairs += [("INT_HEX", "INT_DEC"), ("FLOAT", "INT_DEC")]
     if ctx.tier == "thorough":
         # every type after its neighbour in the type table, after DIMENSION and after INT_DEC
         for i, b_ in enumerate(names):
@@ -159,7 +161,7 @@ def run(ctx):
             ctx.check("sequence/%s-then-%s" % (na, nb), inst, same, fv, "TYPE_%s after TYPE_%s" % (nb, na),
                       "format_value depends on the call history: TYPE_%s of a data word gives %s after the same word was formatted as TYPE_%s, but %s in a fresh state" % (nb, so[:160], na, sr[:160]),
                       witness=_dwit(asg), detail="same result as in a fresh state")
-    ctx.floor("sequence_pairs", 6)
+    ctx.floor("sequence_pairs", 4)
     _check_arsc_getters(ctx, repo, folder, m, hooks)
     ctx.assume("_data is the unsigned 32-bit Res_value.data (all callers unpack it with an unsigned 32-bit slot)")
     ctx.note("unit nibbles outside the AOSP tables (dimension > 5, fraction > 1) are invalid data and not constrained")
